@@ -263,3 +263,34 @@ class _adapt:
                     for i, (oi, ni) in enumerate(items):
                         cs += [oi == i, ni == i + (t_src - lo)]
         return And(*cs)
+
+
+# ---------------------------------------------------------------------------------------------- rounding (C04: "decimal literals such as 1.7 with width 0.1")
+
+@contract(K + "._force_bin_existence_single", props=["C04", "C07"], name=K + "._force_bin_existence_single[machine floats]")
+class _fbes_fp:
+    """The coverage clause on machine floats: after the call the value is >= the first edge and < the last edge *as the
+    binning itself computes them* (first_edge / last_edge).  In mode R this is implied by the contract above; the decimal
+    cross-check evaluates it bit-for-bit on the real code for inputs that are not exactly representable."""
+    bounded = True
+    bound_note = "machine-float coverage: cross-check on the real code with decimal-literal inputs (|v| <= 20, widths k/10..k/1000); not a proof"
+    fp_exact = True
+
+    def configs():
+        return [{"count": c, "align": al} for c in (0, 1, 3) for al in (True,)]
+
+    def inputs(b):
+        me = fixed_width(b, "B", count=b.cfg.count, adaptive=True, align=b.cfg.align)
+        return dict(self=me, value=b.real("v"))
+
+    def invoke(I, fn, a, cfg):
+        if I is not None:
+            I.call(fn, [a.self, a.value], {})
+            return (I.getattr(a.self, "first_edge"), I.getattr(a.self, "last_edge"))
+        fn(a.self, a.value)
+        return (a.self.first_edge, a.self.last_edge)
+
+    @ensures("value_inside_the_edges_the_binning_reports")
+    def _(a, old, result):
+        first, last = result
+        return And(first <= old.value, old.value < last)
